@@ -144,8 +144,10 @@ def minimise_schedule(mod, case, oracle, deadline):
 
 
 def shrink(mod, case, violation, deadline):
-    _HEAD[0] = violation.get('detail', '').split(':')[0].strip() \
-        if violation['oracle'].endswith('raises') else None
+    head = violation.get('detail', '').split(':')[0].strip()
+    # (only where the detail starts with the exception's class name)
+    _HEAD[0] = head if violation['oracle'].endswith('raises') and \
+        head.isidentifier() and head[:1].isupper() else None
     case = _shrink(mod, case, violation, deadline)
     try:
         return minimise_schedule(mod, case, violation['oracle'],
